@@ -132,6 +132,9 @@ func decodeEvent(b []byte) J {
 		return false, bytesJ(x)
 	}
 	ev["same2"], ev["bytes2"], ev["psame2"], ev["pbytes2"] = false, []int{}, false, []int{}
+	// what a decode returned is looked at only after other messages - with lists of other shapes and elements - have gone
+	// through the decoder: a result belongs to its caller, whatever is decoded next
+	disturbDecoder()
 	if e.ok {
 		ev["msg2"] = projHSMS(e.m)
 		ev["same2"], ev["bytes2"] = same(e.m.ToBytes())
@@ -144,6 +147,37 @@ func decodeEvent(b []byte) J {
 		ev["psame2"], ev["pbytes2"] = same(p.m.ToBytes())
 	}
 	return ev
+}
+
+var disturbers [][]byte
+
+func disturbDecoder() {
+	if disturbers == nil {
+		leaf := func(k int) ast.ItemNode {
+			return []ast.ItemNode{ast.NewASCIINode("disturb"), ast.NewUintNode(1, 9, 9, 9), ast.NewBinaryNode(1, 2), ast.NewBooleanNode(true),
+				ast.NewFloatNode(8, 1.5), ast.NewIntNode(2, -3), ast.NewListNode()}[k%7]
+		}
+		var wide []interface{}
+		for k := 0; k < 40; k++ {
+			wide = append(wide, leaf(k))
+		}
+		deep := ast.NewListNode(leaf(0))
+		for k := 1; k < 12; k++ {
+			deep = ast.NewListNode(leaf(k), deep, leaf(k+3))
+		}
+		for _, it := range []ast.ItemNode{ast.NewListNode(wide...), deep, ast.NewListNode(ast.NewListNode(leaf(3), leaf(4)), ast.NewListNode(leaf(5)))} {
+			disturbers = append(disturbers, ast.NewHSMSDataMessage("d", 99, 1, 1, "H->E", it, 4660, []byte{8, 8, 8, 8}).ToBytes())
+		}
+		// ... and one that is refused half way through its lists
+		bad := append([]byte{}, disturbers[1]...)
+		bad = bad[:len(bad)-5]
+		n := len(bad) - 4
+		bad[0], bad[1], bad[2], bad[3] = byte(n>>24), byte(n>>16), byte(n>>8), byte(n)
+		disturbers = append(disturbers, bad)
+	}
+	for _, d := range disturbers {
+		try(func() { hsms.Parse(d) })
+	}
 }
 
 func typeOfMsg(m ast.HSMSMessage) (t string) {
@@ -488,6 +522,29 @@ func driverRT(c *Ctx) {
 			ev2["msg"] = projMsg(m2)
 			c.emit(i, ev2)
 			c.count("rt.derived")
+		}
+		if i%4 == 2 {
+			// two relatives of one definition with an optional wait bit - one sent with W, one without, to this session or
+			// to another one - encoded one after the other: each has the bytes of its own fields, whichever came first
+			def := ast.NewDataMessage(m.Name(), m.StreamCode(), m.FunctionCode()|1, 2, m.Direction(), ast.VerifDataItem(m))
+			if g.pick(2) == 0 {
+				def = def.SetSessionIDAndSystemBytes(m.SessionID(), m.SystemBytes())
+			}
+			first := g.pick(2) == 0
+			ra := def.SetWaitBit(first)
+			rb := def.SetWaitBit(!first)
+			if ra.SessionID() < 0 {
+				ra = ra.SetSessionIDAndSystemBytes(m.SessionID(), m.SystemBytes())
+				rb = rb.SetSessionIDAndSystemBytes((m.SessionID()+7)%65536, []byte{9, byte(i), 0, 1})
+			}
+			ba := ra.ToBytes()
+			bb := rb.ToBytes()
+			for k, r := range []*ast.DataMessage{ra, rb} {
+				evr := decodeEvent([][]byte{ba, bb}[k])
+				evr["ev"], evr["how"], evr["msg"] = "rt", how+"-relatives", projMsg(r)
+				c.emit(i, evr)
+			}
+			c.count("rt.relatives")
 		}
 	}
 }
